@@ -285,6 +285,16 @@ class RealNet:
             self.threads.append(t)
         return self.listeners[name].getsockname()
 
+    def unix_listener(self, path, name):
+        """A listener on a UNIX socket that stands for the endpoint `name` (pools created with uds=... send every connection there)."""
+        s = socket.socket(socket.AF_UNIX, socket.SOCK_STREAM)
+        s.bind(path)
+        s.listen(16)
+        self.listeners["uds:" + path] = s
+        t = threading.Thread(target=self._accept_loop, args=(name, s), daemon=True)
+        t.start()
+        self.threads.append(t)
+
     def _accept_loop(self, name, lsock):
         while not self.stopping:
             try:
@@ -482,7 +492,8 @@ class RealNet:
     def _serve(self, pipe):
         sock = pipe.sock
         sock.settimeout(GIVE_UP)
-        sock.setsockopt(socket.IPPROTO_TCP, socket.TCP_NODELAY, 1)
+        if sock.family != socket.AF_UNIX:
+            sock.setsockopt(socket.IPPROTO_TCP, socket.TCP_NODELAY, 1)
         state = None
         f = self.fault_for(pipe)
         try:
